@@ -496,6 +496,38 @@ class C15(Prop):
                 spec_fail.append((f"history:mem:{prior}:{cps}", name, f"{name}: answers differ from a fresh in-memory database: {diff}"))
             else:
                 nontriv += 1
+        # LEFTOVER SIDE FILES: an interrupted atomic write (or an editor, a backup tool) leaves a
+        # sibling of meta.json holding a COMPLETE metadata record of this very build. Such a file must
+        # not vouch for anything: from every listed state, after builds killed around the commit, the
+        # next complete start answers from the shipped data and the metadata states are those the model
+        # predicts for the same history without the side files (they are no part of the model's state)
+        side_names = ["meta.json.tmp", "meta.json.bak", "meta.json~", ".meta.json.tmp", "meta.json.new", "meta.json.old", "meta.tmp", "meta.json.swp"]
+        side_hist = [(prior, cps) for prior in ("complete", "index-missing", "index-emptied", "meta-missing", "stale-wrong-hash", "olddocs-wrong-hash", "other-data", "absent")
+                     for cps in ([], [10], [11], [12], [13], [4, 11], [11, 11])]
+        rc, spred, err = C.run_lines(C.driver_bin(), ["recover " + p_ + " " + ",".join([str(c) for c in cps_] + ["full"]) for p_, cps_ in side_hist])
+        for (prior, cps), pr in zip(side_hist, spred):
+            make_prior(xdg, prior, tmpl)
+            (xdg / "facts").mkdir(parents=True, exist_ok=True)
+            for sn in side_names:
+                (xdg / "facts" / sn).write_text(json.dumps(current))
+            trace = []
+            for cp in cps:
+                dbopen("disk", probes, xdg=xdg, crash=cp, tag="c15")
+                trace.append(meta_state(xdg, current))
+            rc, lines = dbopen("disk", probes, xdg=xdg, tag="c15")
+            trace.append(meta_state(xdg, current))
+            rc, lines2 = dbopen("disk", probes, xdg=xdg, tag="c15")
+            n += 1
+            name = f"prior={prior} plus leftover side files ({', '.join(side_names[:3])}, …) holding a complete current metadata record, crashes={cps}, then a complete start"
+            observed = "M " + ",".join(trace) + " F " + meta_state(xdg, current) + (" ANSWERS-FRESH" if lines2 == fresh else " ANSWERS-DIFFER")
+            if pr != observed:
+                corr_fail.append((name, observed, pr))
+            bad = lines if lines != fresh else (lines2 if lines2 != fresh else None)
+            if bad is not None:
+                diff = [C.unhex(l.split(" ")[1]) if l.startswith("A ") and len(l.split(" ")) > 1 else l for l, r in zip(bad, fresh) if l != r][:3]
+                spec_fail.append((f"history:side:{prior}:{cps}", name, f"{name}: answers differ from a fresh in-memory database: {diff}"))
+            else:
+                nontriv += 1
         # ANOTHER build of the same version that ships other data, on the same data directory: its
         # starts, complete or killed at the crash points, interleaved with ours (needs a second build
         # with the hooks on: thorough tier, and quick tier when db.rs / config.rs differ from the pin)
